@@ -13,7 +13,7 @@ K_OFFSET = int(os.environ.get("K_OFFSET", "0"))
 TAG = "" if BASE_REV == "ca67a58" else "-" + subprocess.check_output(["git", "-C", "/repo", "rev-parse", "--short", BASE_REV], text=True).strip()
 
 def sh(cmd, cwd=None, timeout=900):
-    r = subprocess.run(cmd, shell=True, cwd=cwd, capture_output=True, text=True, timeout=timeout)
+    r = subprocess.run(cmd, shell=True, cwd=cwd, capture_output=True, text=True, errors="replace", timeout=timeout)
     return r.returncode, (r.stdout + r.stderr)
 
 def ensure_wt(name):
